@@ -199,7 +199,11 @@ class ModelEval(Evaluator):
                 raise Raised("AttributeError", node, "%s has no attribute %s" % (type(base).__name__, a))
         if base is None:
             raise Raised("AttributeError", node, "NoneType has no attribute %s" % a)
+        if isinstance(base, (slice, range)) and a in ("start", "stop", "step", "indices", "index", "count"):
+            return getattr(base, a)
         if isinstance(base, (int, float)):
+            if a in ("real", "imag", "is_integer", "bit_length", "conjugate"):
+                return getattr(base, a)
             raise Raised("AttributeError", node, "number has no attribute %s" % a)
         raise Unsupported("attribute .%s on %r" % (a, base))
 
@@ -220,7 +224,32 @@ class ModelEval(Evaluator):
             return Marker("bound", m, obj)
         if a == "__dict__":
             return obj._attrs
+        found, val = self.class_attr(obj._cls, a)
+        if found:
+            return val
         raise Raised("AttributeError", node, "%s has no attribute %s" % (obj._cls.name, a))
+
+    def class_attr(self, ci, a):
+        """a data attribute assigned in a class body (through the MRO): evaluated once per fold and then SHARED by all instances"""
+        for c in self.tree.mro(ci):
+            for st in c.node.body:
+                tgt = None
+                if isinstance(st, ast.Assign) and len(st.targets) == 1 and isinstance(st.targets[0], ast.Name):
+                    tgt, value = st.targets[0].id, st.value
+                elif isinstance(st, ast.AnnAssign) and isinstance(st.target, ast.Name) and st.value is not None:
+                    tgt, value = st.target.id, st.value
+                if tgt != a:
+                    continue
+                key = "%s.%s" % (c.qual, a)
+                state = self.hooks.setdefault("_module_state", {}) if isinstance(self.hooks, dict) else {}
+                if key in state:
+                    return True, state[key]
+                sub = ModelEval(self.tree, _ModuleCtx(c.module), {}, self.hooks, self.depth + 1, self.shared)
+                val = sub.ev(value)
+                if isinstance(val, (dict, list, set, PyObj)):
+                    state[key] = val
+                return True, val
+        return False, None
 
     def obj_setattr(self, obj, a, v, node=None):
         setter = self.tree.method(obj._cls, a + ".setter")
@@ -569,11 +598,15 @@ class ModelEval(Evaluator):
                 return v
         return v
 
+    BUILTIN_TYPES = {"slice": slice, "frozenset": frozenset, "range": range, "bytes": bytes, "complex": complex}
+
     def isinstance_(self, obj, cls):
         if isinstance(cls, tuple):
             return any(self.isinstance_(obj, c) for c in cls)
         if not isinstance(cls, Marker):
             raise Unsupported("isinstance against %r" % (cls,))
+        if cls.kind == "builtin" and cls.data and cls.data[0] in self.BUILTIN_TYPES:
+            cls = Marker("type", self.BUILTIN_TYPES[cls.data[0]])
         if cls.kind == "type":
             t = cls.data[0]
             if isinstance(obj, (PyObj, Model, Marker)):
